@@ -192,11 +192,13 @@ def units(ctx):
     us = [core.Unit('regex:lemmas', lemmas_unit, 'z3-regex'),
           core.Unit('probe:verbatim', verbatim_probe, 'cpython')]
     us += pyvc_units(lexer.contracts(), 'C16', lexer.setup)
+    from props._common import frame_unit
+    us.append(frame_unit('C16'))
     # the lexer sees EXACTLY the text the host passed (no normalisation of
     # line ends, case or spacing between the API and the token rules)
     us += [contract_unit(c, world_setup=core_glue.setup)
            for c in core_glue.contracts()
-           if c.short == 'factory.YaqlEngine.__call__']
+           if c.short in ('factory.YaqlEngine.__call__', 'yaql.eval/warm')]
     us.append(bounded_unit(
         'bounded:c16-literals', 'c16_literals.py',
         'BOUNDED: quoted/verbatim round trip for all strings of length <= 3 '
